@@ -107,7 +107,7 @@ func c08Values(env *core.Env) []numVal {
 	}
 	decs := []string{"0.0", "0.00", "1.0", "1.00", "-1.0", "0.5", "1.5", "2.5", "-0.5", "-1.5", "-2.5", "3.14159", "0.1", "0.2", "0.3", "100.0", "2147483647.5", "2147483648.0", "-2147483648.5", "-2147483649.0",
 		"99999999999.9", "-99999999999.9", "1000000000000000000000000000000.0", "0.000000000000000000000000000001", "12345678901234567890.12345678901234567890", "0.99999999999999999999", "-0.99999999999999999999",
-		"1.0000000000000000000000000001", "7.0", "0.5000000000000000000000000000", "2147483647.0", "-2147483648.0", "0.49999999999999999999", "1.005", "2.675", "123456789.987654321"}
+		"1.0000000000000000000000000001", "7.0", "0.5000000000000000000000000000", "2147483647.0", "-2147483648.0", "0.49999999999999999999", "1.005", "2.675", "123456789.987654321", "9007199254740993.0", "9999999.123456789", "0.1234567890123456", "1234567.12345678", "900719925474099.3", "-9007199254740993.5"}
 	for i := 0; i < env.Size(10, 200); i++ {
 		// random decimal: up to 20 integer digits, 0..30 fraction digits
 		id := 1 + rng.Intn(12)
@@ -570,7 +570,7 @@ func runC08(env *core.Env) {
 			{"decimal-collection", func(v string) (any, bool) { d, err := system.ParseDecimal(v); return system.Collection{d}, err == nil && strings.Contains(v, ".") }},
 		}
 		forms := []string{"%x.abs()", "%x.ceiling()", "%x.floor()", "%x.round()", "%x.round(1)", "%x.truncate()", "%x.sqrt()", "%x.exp()", "%x.ln()", "%x.log(10)", "%x.log(2)", "%x.power(2)", "%x.power(0.5)", "2.power(%x)", "10.log(%x)", "-%x", "%x + 1", "%x * %x", "%x / 4", "%x div 3", "%x mod 3", "1 / %x", "%x + -%x", "%x - -%x", "-%x + %x", "(-%x) * (-%x)", "-%x.abs() + %x.abs()", "(-%x) = %x or (-%x) != %x"}
-		for _, v := range []string{"0", "1", "2", "4", "16", "100", "7", "-4", "2147483647", "0.0", "2.25", "6.25", "0.5", "-2.5", "1.0", "16.00", "1e0"} {
+		for _, v := range []string{"0", "1", "2", "4", "16", "100", "7", "-4", "2147483647", "0.0", "2.25", "6.25", "0.5", "-2.5", "1.0", "16.00", "1e0", "9007199254740993", "9999999.123456789", "0.1234567890123456", "123456789012.3457", "99999999999999.99"} {
 			for _, c := range carriers {
 				el, ok := c.elem(v)
 				if !ok || v == "1e0" {
